@@ -61,6 +61,19 @@ def run_c08(rep, tier):
                     'try:\n    f = treeaut.build_native(M, t); print("built", f)\nexcept Exception as e:\n    print("raised", type(e).__name__, e)\n'
                     'print("documented kind in %s:", treeaut.doc_member(%r, treeaut.plain(t)))\nprint("VIOLATION of C08: %s")\nsys.exit(1)\n' % (ROOT, t[0], pr[1], t[0], t[0], pr[0]))
             rep.violation('%s: %s on %s' % (key, pr[0], pr[1]), write_replay('C08', body))
+    d15 = findings.is_open('D15') and 'D15' not in rep.cov.get('findings_not_reproducing', [])
+    for t, st, stats, secs in pmap(treeaut.native_cross, [(lg, d15) for lg in ('PL', 'CTL', 'LTL', 'CTLS')]):
+        key = 'native exploration, raw and cross-language operands, %s' % t[0]
+        if st != 'ok':
+            rep.inconclusive('%s: %s' % (key, stats))
+            continue
+        nat += stats['cases']
+        rep.obligation(key, 'unsat' if not stats['problems'] else 'sat', 0, 0,
+                       dict(exploration='operands built in another language or given as raw str/bool', logic=t[0], cases=stats['cases'], built=stats['built'], rejected_with_TypeError=stats['rejected'],
+                            problems=stats['problems'][:3]))
+        for pr in stats['problems'][:5]:
+            body = 'print(%r)\nprint("VIOLATION of C08: %s")\nsys.exit(1)\n' % (pr, pr[0].replace('"', "'"))
+            rep.violation('%s: %s on %s' % (key, pr[0], pr[1]), write_replay('C08', body))
     guards = treeaut.native_guards()
     for name, problem in guards:
         rep.obligation('modelcheck guard: ' + name, 'unsat' if problem is None else 'sat', 0, 0, dict(native_guard=name, outcome=problem or 'TypeError'))
